@@ -567,7 +567,11 @@ func TestVerif_C35(t *testing.T) {
 				rec.Count("clients.unspecified_region", 1)
 			}
 			for i := range results {
-				rec.Count("calls.IsClientIPAllowed."+names[i], 1)
+				if strings.HasPrefix(names[i], "session/") {
+					rec.Count("calls.Session.IsAllowConnect."+names[i][8:], 1)
+				} else {
+					rec.Count("calls.IsClientIPAllowed."+names[i], 1)
+				}
 				if results[i] {
 					rec.Count("calls.allowed", 1)
 				} else {
